@@ -17,30 +17,67 @@ Definition fl_eqb (f : float) (x : fl) : bool :=
   | FFin neg m e => PrimFloat.eqb f (SF2Prim (S754_finite neg (Z.to_pos m) e))
   end.
 
-(* what GetStats() returns, projected: times as Unix ns (None = zero Time) *)
-Record obs := mkObs {
-  b_recv : Z; b_lost : Z; b_jit : fl; b_last : option Z; b_hdr : Z; b_bytes : Z;
-  b_fir : Z; b_pli : Z; b_nack : Z;
-  b_sent : Z; b_obytes : Z; b_ohdr : Z; b_onack : Z; b_ofir : Z; b_opli : Z;
-  b_rrecv : Z; b_rlost : Z; b_rjit : fl; b_rrtt : Z; b_rtotal : Z; b_rfrac : fl; b_rmeas : Z;
-  b_rosent : Z; b_robytes : Z; b_rots : option Z; b_reports : Z; b_rortt : Z; b_rototal : Z; b_romeas : Z }.
+(* what GetStats() returns, projected: times as Unix ns (None = zero Time).
+   Stored as three indexed lists so that the harness can print each query
+   point as the list of fields that CHANGED since the previous one. *)
+Record obs := mkObs { zf : list Z; ff : list fl; tf : list (option Z) }.
+Definition obs0 : obs := mkObs (repeat 0 24) (repeat (FZero false) 3) (repeat None 2).
+Definition zget (o : obs) (i : nat) : Z := nth i (zf o) 0.
+Definition fget (o : obs) (i : nat) : fl := nth i (ff o) FNan.
+Definition tget (o : obs) (i : nat) : option Z := nth i (tf o) None.
+(* InboundRTPStreamStats *)
+Definition b_recv o := zget o 0.   Definition b_lost o := zget o 1.
+Definition b_hdr o := zget o 2.    Definition b_bytes o := zget o 3.
+Definition b_fir o := zget o 4.    Definition b_pli o := zget o 5.    Definition b_nack o := zget o 6.
+Definition b_jit o := fget o 0.    Definition b_last o := tget o 0.
+(* OutboundRTPStreamStats *)
+Definition b_sent o := zget o 7.   Definition b_obytes o := zget o 8. Definition b_ohdr o := zget o 9.
+Definition b_onack o := zget o 10. Definition b_ofir o := zget o 11.  Definition b_opli o := zget o 12.
+(* RemoteInboundRTPStreamStats *)
+Definition b_rrecv o := zget o 13. Definition b_rlost o := zget o 14.
+Definition b_rrtt o := zget o 15.  Definition b_rtotal o := zget o 16. Definition b_rmeas o := zget o 17.
+Definition b_rjit o := fget o 1.   Definition b_rfrac o := fget o 2.
+(* RemoteOutboundRTPStreamStats *)
+Definition b_rosent o := zget o 18. Definition b_robytes o := zget o 19. Definition b_reports o := zget o 20.
+Definition b_rortt o := zget o 21.  Definition b_rototal o := zget o 22. Definition b_romeas o := zget o 23.
+Definition b_rots o := tget o 1.
+
+Inductive fupd := UZ (i v : Z) | UF (i : Z) (f : fl) | UT (i : Z) (t : option Z).
+Fixpoint set_nth {A} (l : list A) (i : nat) (v : A) : list A :=
+  match l, i with
+  | [], _ => []
+  | _ :: tl, O => v :: tl
+  | x :: tl, S k => x :: set_nth tl k v
+  end.
+Definition apply_upd (o : obs) (u : fupd) : obs :=
+  match u with
+  | UZ i v => mkObs (set_nth (zf o) (Z.to_nat i) v) (ff o) (tf o)
+  | UF i f => mkObs (zf o) (set_nth (ff o) (Z.to_nat i) f) (tf o)
+  | UT i t => mkObs (zf o) (ff o) (set_nth (tf o) (Z.to_nat i) t)
+  end.
+(* query point k = query point k-1 with the k-th list of changes applied *)
+Fixpoint expand (o : obs) (ds : list (list fupd)) : list obs :=
+  match ds with
+  | [] => []
+  | d :: tl => let o' := fold_left apply_upd d o in o' :: expand o' tl
+  end.
 
 Definition oz_eqb := option_eqb Z.eqb.
 
 (* ---- correspondence ---- *)
 Definition obs_eqb (s : st float) (o : obs) : bool :=
-  let a := sa _ s in let b := sb _ s in let c := sc _ s in let d := sd _ s in
-  (i_recv _ a =? b_recv o) && (i_lost _ a =? b_lost o) && fl_eqb (i_jit _ a) (b_jit o) &&
-  oz_eqb (i_last _ a) (b_last o) && (i_hdr _ a =? b_hdr o) && (i_bytes _ a =? b_bytes o) &&
+  let a := sa s in let b := sb s in let c := sc s in let d := sd s in
+  (i_recv a =? b_recv o) && (i_lost a =? b_lost o) && fl_eqb (i_jit a) (b_jit o) &&
+  oz_eqb (i_last a) (b_last o) && (i_hdr a =? b_hdr o) && (i_bytes a =? b_bytes o) &&
   (i_fir c =? b_fir o) && (i_pli c =? b_pli o) && (i_nack c =? b_nack o) &&
   (o_sent b =? b_sent o) && (o_bytes b =? b_obytes o) && (o_hdr b =? b_ohdr o) &&
-  (o_nack _ d =? b_onack o) && (o_fir _ d =? b_ofir o) && (o_pli _ d =? b_opli o) &&
-  (ri_recv _ d =? b_rrecv o) && (ri_lost _ d =? b_rlost o) && fl_eqb (ri_jit _ d) (b_rjit o) &&
-  (ri_rtt _ d =? b_rrtt o) && (ri_total _ d =? b_rtotal o) && fl_eqb (ri_frac _ d) (b_rfrac o) &&
-  (ri_meas _ d =? b_rmeas o) &&
-  (ro_sent _ d =? b_rosent o) && (ro_bytes _ d =? b_robytes o) && oz_eqb (ro_ts _ d) (b_rots o) &&
-  (ro_reports _ d =? b_reports o) && (ro_rtt _ d =? b_rortt o) && (ro_total _ d =? b_rototal o) &&
-  (ro_meas _ d =? b_romeas o).
+  (o_nack d =? b_onack o) && (o_fir d =? b_ofir o) && (o_pli d =? b_opli o) &&
+  (ri_recv d =? b_rrecv o) && (ri_lost d =? b_rlost o) && fl_eqb (ri_jit d) (b_rjit o) &&
+  (ri_rtt d =? b_rrtt o) && (ri_total d =? b_rtotal o) && fl_eqb (ri_frac d) (b_rfrac o) &&
+  (ri_meas d =? b_rmeas o) &&
+  (ro_sent d =? b_rosent o) && (ro_bytes d =? b_robytes o) && oz_eqb (ro_ts d) (b_rots o) &&
+  (ro_reports d =? b_reports o) && (ro_rtt d =? b_rortt o) && (ro_total d =? b_rototal o) &&
+  (ro_meas d =? b_romeas o).
 
 Fixpoint all2 {A B} (f : A -> B -> bool) (l1 : list A) (l2 : list B) : bool :=
   match l1, l2 with
@@ -50,10 +87,10 @@ Fixpoint all2 {A B} (f : A -> B -> bool) (l1 : list A) (l2 : list B) : bool :=
   end.
 
 (* case: SSRC, clock rate, events, the stats read after every event *)
-Definition crec := (Z * Z * list event * list obs)%type.
+Definition crec := (Z * Z * list event * list (list fupd))%type.
 
 Definition rec_ok (c : crec) : bool :=
-  let '(s, rate, evs, os) := c in all2 obs_eqb (frun_all s rate fst0 evs) os.
+  let '(s, rate, evs, ds) := c in all2 obs_eqb (frun_all s rate fst0 evs) (expand obs0 ds).
 
 Definition rec_mismatches (cases : list crec) : list nat :=
   find_idx (fun c => negb (rec_ok c)) cases 0.
@@ -159,13 +196,14 @@ Fixpoint spec_steps (s rate : Z) (evs : list event) (k : nat) (os : list obs) : 
   end.
 
 Definition rec_spec_code (c : crec) : nat :=
-  let '(s, rate, evs, os) := c in
-  if negb (Nat.eqb (length evs) (length os)) then 99%nat else spec_steps s rate evs 1 os.
+  let '(s, rate, evs, ds) := c in
+  if negb (Nat.eqb (length evs) (length ds)) then 99%nat else spec_steps s rate evs 1 (expand obs0 ds).
 
-Fixpoint find_codes {A} (f : A -> nat) (l : list A) (i : nat) : list (nat * nat) :=
+(* (index, code) pairs are printed as Z so that they read "(3, 7)" in Z_scope *)
+Fixpoint find_codes {A} (f : A -> nat) (l : list A) (i : Z) : list (Z * Z) :=
   match l with
   | [] => []
-  | x :: xs => match f x with O => find_codes f xs (S i) | c => (i, c) :: find_codes f xs (S i) end
+  | x :: xs => match f x with O => find_codes f xs (i + 1) | c => (i, Z.of_nat c) :: find_codes f xs (i + 1) end
   end.
 
-Definition rec_spec_failures (cases : list crec) : list (nat * nat) := find_codes rec_spec_code cases 0.
+Definition rec_spec_failures (cases : list crec) : list (Z * Z) := find_codes rec_spec_code cases 0.
